@@ -13,6 +13,8 @@ ACC = E + "apply_to_bitmap_accumulator"
 
 
 def run(c):
+    import r9
+    c.r9("C15")
     c.r1("apply-block-updates-accumulator", E + "apply_block", ACC, via=2)
     c.r1("accumulator-after-inputs", E + "apply_block", E + "apply_input", sink=ACC, via=2,
          extra_cuts=_empty_loop(c, E + "apply_block", r"validate_inputs"), desc="apply_block: the accumulator update follows the application of the spent inputs") if False else None
@@ -37,10 +39,10 @@ def run(c):
     # --- committed accumulator only replaced on the commit exit; rebuilt on open
     c.r3_field("accumulator-writers", X + "TxHashSet", "bitmap_accumulator", {X + "extending": {"assign"}}, floor=1)
     W = X + "extending"
-    ok_arm = [e[1] for e in c.false_edges(W, r"\.extension\.rollback$")]
-    c.r2_assign("commit-exit-assigns-accumulator", W, "bitmap_accumulator", must=["re:\\.extension\\.bitmap_accumulator$"])
+    ok_arm = [e[1] for e in c.false_edges(W, r"^Extension::new\(arg1, .*\)\.rollback$")]
+    c.r2_assign("commit-exit-assigns-accumulator", W, "bitmap_accumulator", must=["call:Extension::new", "re:\\.bitmap_accumulator$"])
     err_arm = c.arm_blocks(W, r"^discr\(FnOnce::call_once\(arg3", 1)
-    rb_arm = [e[1] for e in c.true_edges(W, r"\.extension\.rollback$")]
+    rb_arm = [e[1] for e in c.true_edges(W, r"^Extension::new\(arg1, .*\)\.rollback$")]
     _no_assign(c, "rollback-keeps-accumulator", W, err_arm + rb_arm, "bitmap_accumulator")
     c.r1("open-rebuilds-accumulator", X + "TxHashSet::open", X + "TxHashSet::bitmap_accumulator", via=2)
     c.r1("rebuild-from-leaf-set", X + "TxHashSet::bitmap_accumulator", "grin_chain::txhashset::bitmap_accumulator::BitmapAccumulator::init", via=2)
